@@ -80,6 +80,11 @@ def real_iface(name):
 
 
 # ------------------------------------------------------------------ sandbox
+# the private temporary directory has a blank, a quote and a glob character in its name: file names handed to a solver
+# must survive whatever the interface does to build the command line (seeded change C20-6)
+TMPNAME = "my tmp 'dir' *"
+
+
 class Sandbox:
     """private PATH directories + private TMPDIR, created lazily, removed at exit"""
 
@@ -95,13 +100,13 @@ class Sandbox:
                 self.base = tempfile.mkdtemp(prefix="cnfgen-c20-")
             finally:
                 tempfile.tempdir = saved
-            os.mkdir(os.path.join(self.base, "tmp"))
+            os.mkdir(os.path.join(self.base, TMPNAME))
             atexit.register(self.cleanup)
         return self.base
 
     @property
     def tmp(self):
-        return os.path.join(self.ensure(), "tmp")
+        return os.path.join(self.ensure(), TMPNAME)
 
     def bindir(self, installed):
         key = tuple(sorted(installed))
